@@ -114,30 +114,47 @@ def classify_k4(mode, ref, got):
         recd = by_pos.get(i)
         if recd is None:
             return None
-        obs = parse_site(b[1:-1].split("=", 1)[1])
+        import html
+
+        obs_val = b[1:-1].split("=", 1)[1]
+        obs = parse_site(obs_val)
         exp = recd["sel"]
-        if recd["via_defaultref"]:
-            # K3: default content rendered through {{ alias }} sees a layer captured for the enclosing fill
-            if mode == "django" and obs is not None and obs in recd["captured_sites"] and obs != exp:
-                kinds.add(K3)
-                continue
+        # --- K4: placement of the layer captured for a fill (both modes; in django mode a component rendered
+        #     inside fill content inherits the fill's context)
+        k4 = False
+        if recd["in_fill"] or recd["captured_sites"]:
+            cands = {}
+            for k, s_, cap in recd["cands"]:
+                cands[(k, s_)] = cands.get((k, s_), False) or cap
+            if obs is not None and obs in cands and (exp is None or exp in cands):
+                if (exp is None and cands[obs]) or (exp is not None and cands[obs] != cands[exp]):
+                    k4 = True
+        # --- K3: the slot's own default content, rendered through {{ default-alias }} inside a fill, sees the
+        #     scope of that fill: a layer captured for it, its data alias, or any binding visible where the
+        #     alias is expanded
+        k3 = False
+        if recd["via_defaultref"] and obs != exp:
+            if obs is not None and (obs in recd["captured_sites"] or obs in recd["defaultref_env_cands"]):
+                k3 = True
+            if recd["name"] in recd["fill_aliases"] and obs_val == html.escape(str(recd["fill_aliases"][recd["name"]])):
+                k3 = True
+        # --- K1 (token level, for transitive forwarding the exact model does not reproduce): a loop variable of a
+        #     loop that dynamically encloses the read shows up although it is not visible by the statement's rule
+        k1 = False
+        if obs is not None and obs[0] == "for" and str(obs[1]) in recd["dyn_loop_sites"] and obs != exp:
+            if obs not in {(k, s_) for k, s_, _ in recd["cands"]}:
+                k1 = True
+        if k4:
+            kinds.add(K4)
+        elif k3:
+            kinds.add(K3)
+        elif k1:
+            kinds.add(K1)
+        else:
             return None
-        if not recd["in_fill"] and not (mode == "django" and recd["captured_sites"]):
-            # (in django mode a component rendered inside fill content inherits the fill's context)
-            return None
-        cands = {}
-        for k, s, cap in recd["cands"]:
-            cands[(k, s)] = cands.get((k, s), False) or cap
-        if obs is None or obs not in cands or (exp is not None and exp not in cands):
-            return None
-        if exp is not None and cands[obs] == cands[exp]:
-            return None
-        if exp is None and not cands[obs]:
-            return None
-        kinds.add(K4)
     if not any_diff:
         return None
-    return K4 if K4 in kinds else K3
+    return K4 if K4 in kinds else K3 if K3 in kinds else K1
 
 
 def it_out_chunks(it, text):
